@@ -10,6 +10,114 @@ def maxAbs (xs : List Rat) : Rat := xs.foldl (fun m x => maxR m (absR x)) 0
 
 def theEnv : Env := Env.ofDb Gen.poscDb
 
+def minAbs (xs : List Rat) : Rat :=
+  match xs with
+  | [] => 0
+  | x :: rest => rest.foldl (fun m y => if absR y < m then absR y else m) (absR x)
+
+/-! ### magnitude for the float comparison: absolute error carried through unit matching
+
+`M` starts as the largest operand / result magnitude.  Unit matching adds rounding that depends on offsets:
+* a plain `Convert` (to base, from base) has absolute error about `eps · B`, `B` = the intermediates
+  including the offsets (a gauge unit converted to another gauge unit goes through the absolute base);
+* a scaling by `Convert(1.0) - Convert(0.0)` has relative error about `eps · (|one| + |zero|) / |one - zero|`
+  per unit of exponent (the difference cancels when the unit has an offset).
+The driver replays the matching steps of both operands on every value, carries the absolute error (in
+units of eps) through them and through the final operation, and adds it to `M`. -/
+
+/-- magnitude of the intermediates of `from(to x)`, in the target unit (as in Drivers/Conv.lean) -/
+def convMag (db : Db) (cq u v : Sym) (x : Rat) : Rat :=
+  match db.typeOf cq with
+  | .error _ => 0
+  | .ok qt =>
+    match db.getInfo qt u true, db.getInfo qt v true with
+    | .ok a, .ok b =>
+      let base := a.toBase.eval x
+      let s := if b.fromBase.r = 0 then 0 else absR (b.fromBase.q / b.fromBase.r)
+      let m1 := if a.toBase.r = 0 then 0 else s * ((absR a.toBase.p + absR (a.toBase.q * x)) / absR a.toBase.r)
+      let m2 := if b.fromBase.r = 0 then 0 else (absR b.fromBase.p + absR (b.fromBase.q * base)) / absR b.fromBase.r
+      maxR m1 m2
+    | _, _ => 0
+
+def qtOf (c : Sym) : Option Sym :=
+  match theEnv.qtype c with
+  | .ok t => some t
+  | .error _ => none
+
+structure Step where
+  cat : Sym
+  fromU : Sym
+  toU : Sym
+  exp : Int
+  inDerived : Bool
+
+/-- the conversions `_MatchQuantities` applies to the value of one dict (same walk as `matchDict`) -/
+def stepsDict (inDerived : Bool) : List (Sym × Sym) → List Entry → List (Sym × Sym) × List Step
+  | found, [] => (found, [])
+  | found, e :: es =>
+    match qtOf e.cat with
+    | none => (found, [])
+    | some t =>
+      match found.find? (·.1 == t) with
+      | none =>
+        let (f, st) := stepsDict inDerived ((t, e.unit) :: found) es
+        (f, st)
+      | some (_, used) =>
+        let (f, st) := stepsDict inDerived found es
+        (f, if used == e.unit then st else ⟨e.cat, e.unit, used, e.exp, inDerived⟩ :: st)
+
+def okOr (r : Except ErrKind Rat) (d : Rat) : Rat :=
+  match r with
+  | .ok x => x
+  | .error _ => d
+
+/-- value and absolute error (in eps) after the steps -/
+def runSteps (steps : List Step) (v : Rat) : Rat × Rat :=
+  steps.foldl (fun (va : Rat × Rat) st =>
+    let (v, a) := va
+    let db := Gen.poscDb
+    let zero := okOr (db.convert st.cat st.fromU st.toU 0) 0
+    let one := okOr (db.convert st.cat st.fromU st.toU 1) 1
+    let ratio := one - zero
+    if (st.exp == (1 : Int) && !st.inDerived) || (st.exp == (1 : Int) && zero == 0) then
+      (okOr (db.convert st.cat st.fromU st.toU v) v, a * absR ratio + convMag db st.cat st.fromU st.toU v)
+    else
+      let factor := okOr (powInt ratio st.exp) 1
+      let e : Rat := if st.exp < (0 : Int) then -((st.exp : Int) : Rat) else ((st.exp : Int) : Rat)
+      let cond := if ratio = 0 then 1 else 1 + e * (absR one + absR zero) / absR ratio
+      (v * factor, a * absR factor + absR (v * factor) * cond)) (v, 0)
+
+def operandValues : Operand → List Rat
+  | .num _ k => [k]
+  | .ndarr ks => ks
+  | .scalar _ v => [v]
+  | .array _ _ vs => vs
+  | .junk => []
+
+def operandQuantity : Operand → Quantity
+  | .scalar q _ | .array q _ _ => q
+  | _ => []
+
+/-- absolute error (in eps) that unit matching and the operation carry into the result -/
+def matchErr (op : Op) (a b : Operand) : Rat :=
+  let q1 := operandQuantity a
+  let q2 := operandQuantity b
+  let (f1, s1) := stepsDict (decide (1 < q1.length)) [] q1
+  let (_, s2) := stepsDict (decide (1 < q2.length)) f1 q2
+  if s1.isEmpty && s2.isEmpty then 0 else
+  let r1 := (operandValues a).map (runSteps s1)
+  let r2 := (operandValues b).map (runSteps s2)
+  let x := maxAbs (r1.map (·.1))
+  let y := maxAbs (r2.map (·.1))
+  let a1 := maxAbs (r1.map (·.2))
+  let a2 := maxAbs (r2.map (·.2))
+  match op with
+  | .sum | .sub => a1 + a2
+  | .mul => y * a1 + x * a2
+  | .div | .floordiv =>
+    let m := minAbs (r2.map (·.1))
+    if m = 0 then 0 else a1 / m + x * a2 / (m * m)
+
 def parseRatJ (j : Json) : Except String Rat :=
   match j with
   | .str s => match parseRat? s with
@@ -67,13 +175,6 @@ def quantityJ (q : Quantity) : Json :=
 
 def ratsJ (xs : List Rat) : Json := Json.arr (xs.map ratJ).toArray
 
-def operandValues : Operand → List Rat
-  | .num _ k => [k]
-  | .ndarr ks => ks
-  | .scalar _ v => [v]
-  | .array _ _ vs => vs
-  | .junk => []
-
 def outJ (inMag : Rat) : Except ErrKind Out → Json
   | .error e => errJ e
   | .ok .bare => Json.mkObj [("ok", Json.mkObj [("t", .str "bare")])]
@@ -95,8 +196,13 @@ def handle (j : Json) : Except String Json := do
     let defers ← getBool j "defers"
     let a ← parseOperand (← j.getObjVal? "a")
     let b ← parseOperand (← j.getObjVal? "b")
-    let mag := maxR (maxAbs (operandValues a)) (maxAbs (operandValues b))
-    let res := outJ mag (binop theEnv defers f a b)
+    let r := binop theEnv defers f a b
+    let outMag := match r with
+      | .ok o => maxAbs ((o.values?).getD [])
+      | .error _ => 0
+    -- `outJ` takes the maximum with the result magnitude; fold everything in beforehand
+    let mag := maxR (maxR (maxAbs (operandValues a)) (maxAbs (operandValues b))) outMag + matchErr f a b
+    let res := outJ mag r
     -- for `//` also the exact quotients before the floor (the harness needs them to recognise
     -- quotients that are integers up to float rounding)
     match f, binop theEnv defers .div a b with
